@@ -228,8 +228,22 @@ def _parse_iso8601_interval(text: str) -> _Interval:
         end = parse_iso8601(last)
 
     return _Interval(
-        cast(datetime, start), cast(datetime, end), cast(Duration, duration)
+        _interval_endpoint(start), _interval_endpoint(end), cast(Duration, duration)
     )
+
+
+def _interval_endpoint(value: Any) -> datetime | None:
+    """
+    The endpoints of an interval are instants: a bare date
+    stands for its midnight, anything else is not an interval.
+    """
+    if value is None or isinstance(value, datetime):
+        return value
+
+    if isinstance(value, date):
+        return datetime(value.year, value.month, value.day)
+
+    raise ParserError("Invalid interval")
 
 
 __all__ = ["parse", "parse_iso8601"]
